@@ -3,7 +3,7 @@
 From Coq Require Import List ZArith NArith Bool Lia.
 From Coq.Strings Require Import Byte.
 From RimeV Require Import Base.Bytes Eng.Keys Eng.Cand Eng.Segm Eng.Ctx Eng.Engine Eng.Procs Eng.Api Eng.Oracle
-     Eng.Spec Eng.WfProofs Eng.CommitProofs.
+     Eng.Spec Eng.WfProofs Eng.CommitProofs Eng.TotalFull Eng.TotalProofs.
 Import ListNotations.
 
 (** (1) With full-shape conversion off, in ANY state (any configuration, any
@@ -100,6 +100,47 @@ Theorem C03_second_read_empty :
     read_of (snd r2) = [] /\ exists v, snd r2 = Obs (RCommit None) v.
 Proof. exact second_read_empty. Qed.
 Print Assumptions C03_second_read_empty.
+
+(** (3b', 3c') The no-crash hypothesis of (3b)/(3c) discharged by C01's totality
+    theorem (Eng/TotalFull.v): for translators whose candidates lie inside their
+    segment ([cands_fit], true of the oracle translator) no history reaches an
+    undefined operation, so exactly-once holds for ALL histories, and the two
+    read theorems hold in every reachable state. *)
+Theorem C03_exactly_once_total :
+  forall cfg translate, total_hyps cfg translate -> cands_fit translate ->
+  forall ops,
+    concat (map read_of (snd (run cfg translate ops))) ++ st_commit (fst (run cfg translate ops))
+    = concat (deliveries cfg translate (init_state cfg) ops).
+Proof. exact exactly_once_total. Qed.
+Print Assumptions C03_exactly_once_total.
+
+Theorem C03_read_takes_all_total :
+  forall cfg translate, total_hyps cfg translate -> cands_fit translate ->
+  forall ops, let s := fst (run cfg translate ops) in
+    read_of (snd (step cfg translate s OpGetCommit)) = st_commit s /\
+    st_commit (fst (step cfg translate s OpGetCommit)) = [] /\
+    (exists v, snd (step cfg translate s OpGetCommit)
+               = Obs (RCommit (match st_commit s with [] => None | t => Some t end)) v).
+Proof. exact read_takes_all_total. Qed.
+Print Assumptions C03_read_takes_all_total.
+
+Theorem C03_second_read_empty_total :
+  forall cfg translate, total_hyps cfg translate -> cands_fit translate ->
+  forall ops, let s := fst (run cfg translate ops) in
+    let r1 := step cfg translate s OpGetCommit in
+    let r2 := step cfg translate (fst r1) OpGetCommit in
+    read_of (snd r2) = [] /\ exists v, snd r2 = Obs (RCommit None) v.
+Proof. exact second_read_empty_total. Qed.
+Print Assumptions C03_second_read_empty_total.
+
+(** … and the synthetic schemas meet the hypotheses of the three theorems above *)
+Theorem C03_synth_meets_total_hyps :
+  forall fluid dlog, total_hyps (synth_cfg fluid dlog) oracle_translate /\ cands_fit oracle_translate.
+Proof.
+  intros fluid dlog. split; [|exact oracle_cands_fit].
+  split; [cbn; lia|]. split; [|reflexivity]. intros i s. pose proof (InvProofs.oracle_translate_length i s). cbn. lia.
+Qed.
+Print Assumptions C03_synth_meets_total_hyps.
 
 (** Non-vacuity on the synthetic schemas: a partial selection followed by a
     selection that covers the rest.  express: delivered at once as
